@@ -23,13 +23,17 @@ import (
 // SrvCase drives internal/envelope server+client, multiplexing and the public
 // envelope.Write / ReadReply helpers.
 type SrvCase struct {
-	Service  string `json:"service"` // "" = not multiplexed
-	Method   []byte `json:"method"`
-	SeqID    int32  `json:"seqid"`
-	Body     wm.W   `json:"body"`
-	Reply    wm.W   `json:"reply"`
-	Behavior string `json:"behavior"` // reply | unknown-method | error | unknown-service
-	ErrMsg   string `json:"errmsg"`
+	Service string `json:"service"` // "" = not multiplexed
+	// Stack lists further multiplexers around the service's one, outermost
+	// first (stacked multiplex handlers / clients; names may repeat and may
+	// equal Service).
+	Stack    []string `json:"stack,omitempty"`
+	Method   []byte   `json:"method"`
+	SeqID    int32    `json:"seqid"`
+	Body     wm.W     `json:"body"`
+	Reply    wm.W     `json:"reply"`
+	Behavior string   `json:"behavior"` // reply | unknown-method | error | unknown-service
+	ErrMsg   string   `json:"errmsg"`
 }
 
 type handler struct {
@@ -75,20 +79,36 @@ func (e wireEnveloper) MethodName() string              { return e.name }
 func (e wireEnveloper) EnvelopeType() wire.EnvelopeType { return e.typ }
 func (e wireEnveloper) ToWire() (wire.Value, error)     { return bridge.ToWire(e.body), nil }
 
+// muxRoot wraps h in the multiplex handlers of the case (innermost: Service).
+func muxRoot(c SrvCase, h verifhook.EnvelopeHandler, unknownAs string) verifhook.EnvelopeHandler {
+	if c.Service == "" {
+		return h
+	}
+	mux := verifhook.NewMultiplexHandler()
+	if c.Behavior != "unknown-service" {
+		mux.Put(c.Service, h)
+	} else if unknownAs != "" {
+		mux.Put(unknownAs, h)
+	}
+	var root verifhook.EnvelopeHandler = mux
+	for i := len(c.Stack) - 1; i >= 0; i-- {
+		outer := verifhook.NewMultiplexHandler()
+		outer.Put(c.Stack[i], root)
+		root = outer
+	}
+	return root
+}
+
 func checkServer(c SrvCase) error {
 	h := &handler{c: c}
-	var root verifhook.EnvelopeHandler = h
 	wireName := string(c.Method)
 	if c.Service != "" {
-		mux := verifhook.NewMultiplexHandler()
-		if c.Behavior != "unknown-service" {
-			mux.Put(c.Service, h)
-		} else {
-			mux.Put(c.Service+"x", h)
-		}
-		root = mux
 		wireName = c.Service + ":" + string(c.Method)
+		for i := len(c.Stack) - 1; i >= 0; i-- {
+			wireName = c.Stack[i] + ":" + wireName
+		}
 	}
+	root := muxRoot(c, h, c.Service+"x")
 	srv := verifhook.NewEnvelopeServer(binary.Default, root)
 
 	// (1) raw request built by the reference codec
@@ -146,17 +166,13 @@ func checkServer(c SrvCase) error {
 
 	// (2) client <-> server through the in-memory transport
 	h2 := &handler{c: c}
-	var root2 verifhook.EnvelopeHandler = h2
-	if c.Service != "" {
-		mux := verifhook.NewMultiplexHandler()
-		if c.Behavior != "unknown-service" {
-			mux.Put(c.Service, h2)
-		}
-		root2 = mux
-	}
+	root2 := muxRoot(c, h2, "")
 	lt := &loopTransport{srv: verifhook.NewEnvelopeServer(binary.Default, root2)}
 	cl := verifhook.NewEnvelopeClient(binary.Default, lt)
 	if c.Service != "" {
+		for _, s := range c.Stack {
+			cl = verifhook.NewMultiplexClient(s, cl)
+		}
 		cl = verifhook.NewMultiplexClient(c.Service, cl)
 	}
 	v, err := cl.Send(string(c.Method), bridge.ToWire(c.Body))
@@ -166,6 +182,9 @@ func checkServer(c SrvCase) error {
 	sentEnv, sf, _, derr := refcodec.DecodeEnvelope(lt.sent[0])
 	if derr != nil || sf != refcodec.FrameStrict || string(sentEnv.Name) != wireName || sentEnv.Type != 1 || !wm.Equal(sentEnv.Body, c.Body) {
 		return ev.Errf("client/request-bytes", "client request is not a strict Call envelope for %q with the given body (err %v)", wireName, derr)
+	}
+	if wantCalled && (h2.called != 1 || h2.gotName != string(c.Method) || !wm.Equal(h2.gotBody, c.Body)) {
+		return ev.Errf("client/dispatch-args", "service %q (stack %q): client was asked to call %q, the service's handler was called %d time(s) with %q", c.Service, c.Stack, c.Method, h2.called, h2.gotName)
 	}
 	if c.Behavior == "reply" {
 		if err != nil {
@@ -216,6 +235,29 @@ func TestServerClient(t *testing.T) {
 		c.Method = []byte(rapid.StringMatching(`[a-zA-Z_][a-zA-Z0-9_:]{0,12}`).Draw(t, "method"))
 		if rapid.Bool().Draw(t, "mux") {
 			c.Service = rapid.StringMatching(`[A-Za-z][A-Za-z0-9]{0,8}`).Draw(t, "service")
+			// stacked multiplexers, often sharing the service name
+			for i, n := 0, rapid.SampledFrom([]int{0, 0, 0, 1, 1, 2}).Draw(t, "stack"); i < n; i++ {
+				if rapid.Bool().Draw(t, "stack_same") {
+					c.Stack = append(c.Stack, c.Service)
+				} else {
+					c.Stack = append(c.Stack, rapid.StringMatching(`[A-Za-z][A-Za-z0-9]{0,3}`).Draw(t, "stack_name"))
+				}
+			}
+			// method names that look multiplexed themselves: equal to / prefixed by
+			// the service name, leading / trailing / doubled ':'
+			rest := rapid.StringMatching(`[a-zA-Z_:]{0,6}`).Draw(t, "method_rest")
+			switch rapid.IntRange(0, 9).Draw(t, "method_shape") {
+			case 0:
+				c.Method = []byte(c.Service + ":" + rest)
+			case 1:
+				c.Method = []byte(c.Service + ":" + c.Service + ":" + rest)
+			case 2:
+				c.Method = []byte(c.Service)
+			case 3:
+				c.Method = []byte(":" + rest)
+			case 4:
+				c.Method = []byte(c.Service + rest)
+			}
 			if rapid.IntRange(0, 4).Draw(t, "unknown_service") == 0 {
 				c.Behavior = "unknown-service"
 			}
@@ -224,19 +266,46 @@ func TestServerClient(t *testing.T) {
 		}
 		d := ev.DigestJSON(c)
 		nontriv := len(c.Body.Fields) > 0 || c.Behavior != "reply"
-		ev.Case(d, nontriv, "unit:server-client", "behavior:"+c.Behavior, fmt.Sprintf("multiplexed:%v", c.Service != ""))
+		ev.Case(d, nontriv, "unit:server-client", "behavior:"+c.Behavior, fmt.Sprintf("multiplexed:%v", c.Service != ""), methodClass(c))
 		if nontriv {
 			ev.KeepSample("server-client", d, func() interface{} {
-				return map[string]interface{}{"service": c.Service, "method": fmt.Sprintf("%q", clip(c.Method, 30)), "seqid": c.SeqID, "behavior": c.Behavior, "body": wm.Render(c.Body)}
+				return map[string]interface{}{"service": c.Service, "stack": c.Stack, "method": fmt.Sprintf("%q", clip(c.Method, 30)), "seqid": c.SeqID, "behavior": c.Behavior, "body": wm.Render(c.Body)}
 			})
 		}
 		ev.Report(t, "server-client", c, ev.Guard(func() error { return checkServer(c) }))
 	})
 }
 
+// methodClass says how the method name relates to the multiplexing.
+func methodClass(c SrvCase) string {
+	if c.Service == "" {
+		return "method:not-multiplexed"
+	}
+	s := "method:plain"
+	switch {
+	case bytes.HasPrefix(c.Method, []byte(c.Service+":")):
+		s = "method:starts-with-service-prefix"
+	case string(c.Method) == c.Service:
+		s = "method:equals-service"
+	case bytes.ContainsRune(c.Method, ':'):
+		s = "method:contains-colon"
+	}
+	if len(c.Stack) > 0 {
+		same := false
+		for _, x := range c.Stack {
+			same = same || x == c.Service
+		}
+		if same {
+			return s + "+stacked-same-service"
+		}
+		return s + "+stacked"
+	}
+	return s
+}
+
 func replayOther(t *testing.T, f *ev.Failure) bool {
 	if f.Unit != "server-client" {
-		return false
+		return replayHistory(t, f)
 	}
 	var c SrvCase
 	if err := json.Unmarshal(f.Case, &c); err != nil {
